@@ -51,6 +51,12 @@ def generate(seed, tier, enlarged=False):
         # corpus: a compartment with a parallel step (and process) generated while the engine runs, then end()
         {'kind': 'grow', 'at': 2, 'more': 2, 'proc_par': False, 'step_par': True, 'divide': False},
         {'kind': 'grow', 'at': 1, 'more': 3, 'proc_par': True, 'step_par': True, 'divide': True},
+        # corpus (F24): the structure changes while a parallel process elsewhere has an update in flight
+        {'kind': 'grow', 'at': 2, 'more': 4, 'proc_par': False, 'step_par': False, 'divide': False, 'slow_par': True},
+        {'kind': 'proto', 'cmds': ['send', 'query', 'get', 'end']},
+        # corpus (F25): a compartment holding a parallel process is moved
+        {'kind': 'pmove', 'at': 2, 'first': 'mover', 'total': 5},
+        {'kind': 'pmove', 'at': 2, 'first': 'acc', 'total': 5},
         # corpus: a compartment holding a parallel STEP is deleted while the step is idle
         {'kind': 'delete', 'ts': 1.0, 'at': 2, 'first': 'acc', 'victim': 'step'},
     ]
@@ -59,10 +65,12 @@ def generate(seed, tier, enlarged=False):
         if r < 3:
             cs = []
             for _ in range(rng.randint(2, 8)):
-                cs.append(rng.choice(['send', 'get', 'send', 'get', 'end']))
+                cs.append(rng.choice(['send', 'get', 'send', 'get', 'end', 'query']))
             if rng.random() < 0.7:
                 # mostly well-formed: (send get)* end+
                 cs = ['send', 'get'] * rng.randint(0, 3) + ['end'] * rng.randint(1, 2)
+                for _ in range(rng.choice([0, 1, 2])):
+                    cs.insert(rng.randrange(len(cs) + 1), 'query')
                 if rng.random() < 0.3:
                     cs.insert(rng.randrange(len(cs)), rng.choice(['send', 'get', 'end']))
             cases.append({'kind': 'proto', 'cmds': cs})
@@ -88,8 +96,12 @@ def generate(seed, tier, enlarged=False):
             if rng.random() < 0.5:
                 cases[-1] = {'kind': 'delete', 'ts': 1.0, 'at': rng.choice([1, 2, 3]), 'first': 'acc', 'victim': 'step'}
             elif rng.random() < 0.5:
-                cases[-1] = {'kind': 'grow', 'at': rng.choice([1, 2, 3]), 'more': rng.choice([1, 2, 3]),
-                             'proc_par': rng.random() < 0.6, 'step_par': rng.random() < 0.7, 'divide': rng.random() < 0.4}
+                cases[-1] = {'kind': 'grow', 'at': rng.choice([1, 2, 3]), 'more': rng.choice([1, 2, 3, 4]),
+                             'proc_par': rng.random() < 0.6, 'step_par': rng.random() < 0.7, 'divide': rng.random() < 0.4,
+                             'slow_par': rng.random() < 0.5}
+            elif rng.random() < 0.5:
+                cases[-1] = {'kind': 'pmove', 'at': rng.choice([1, 2, 3]), 'first': rng.choice(['mover', 'acc']),
+                             'total': rng.choice([4, 5, 6])}
     return cases
 
 
@@ -114,6 +126,7 @@ def run_proto(c):
     from vivarium.core.process import ParallelProcess
     from harness.par_kit import Acc
     pp = ParallelProcess(Acc({'pid': 0}))
+    pp.schema = pp.get_schema()          # as Store._generate_paths does when the process enters the hierarchy
     oks = []
     for cmd in c['cmds']:
         try:
@@ -121,6 +134,10 @@ def run_proto(c):
                 pp.send_command('next_update', (1.0, {'shared': {'count': 0}, 'own': {'elapsed': 0.0}}))
             elif cmd == 'get':
                 pp.get_command_result()
+            elif cmd == 'query':
+                # what the engine reads while the structure changes: the schema (view rebuild) and is_step()
+                assert pp.schema is not None
+                assert pp.is_step() is False
             else:
                 pp.end()
             oks.append(True)
@@ -289,10 +306,14 @@ def run_grow(c):
                 from harness.par_kit import Acc, Doubler
                 eng = Engine(processes={'grower': Grower({'at': c['at'], 'proc_par': par and c['proc_par'],
                                                           'step_par': par and c['step_par'], 'divide': c['divide']}),
-                                        'base': Acc({'pid': 1, 'time_step': 1.0})},
+                                        'base': Acc({'pid': 1, 'time_step': 1.0}),
+                                        # a slow process whose update is in flight while the structure changes
+                                        'slow': Acc(dict({'pid': 2, 'time_step': 3.0},
+                                                         **({'_parallel': True} if par and c.get('slow_par') else {})))},
                              steps={'d0': Doubler()}, flow={'d0': []},
                              topology={'grower': {'agents': ('agents',)}, 'd0': {'shared': ('shared',)},
-                                       'base': {'shared': ('shared',), 'own': ('own_base',)}}, display_info=False)
+                                       'base': {'shared': ('shared',), 'own': ('own_base',)},
+                                       'slow': {'shared': ('shared',), 'own': ('own_slow',)}}, display_info=False)
                 eng.update(c['at'] + c['more'])
                 state = {'shared': eng.state.get_value().get('shared'),
                          'agents': sorted(eng.state.get_value().get('agents', {}))}
@@ -309,7 +330,47 @@ def run_grow(c):
     return out
 
 
+def run_pmove(c):
+    """a compartment holding a (parallel) process is moved from one colony to another while the engine runs: the
+    process keeps running under its new path, exactly as in the serial run; after end() no worker is left"""
+    from vivarium.core.engine import Engine
+    from harness.par_kit import Acc, Mover
+    import gc
+    out = {}
+    for mode in ('serial', 'parallel'):
+        params = {'pid': 0, 'time_step': 1.0}
+        if mode == 'parallel':
+            params['_parallel'] = True
+        items = [('mover', Mover({'at': c['at']})), ('A', {'c0': {'acc': Acc(params)}})]
+        if c['first'] == 'acc':
+            items.reverse()
+        err, state = None, None
+        gc.disable()
+        try:
+            with contextlib.redirect_stdout(io.StringIO()):
+                eng = Engine(processes=dict(items), initial_state={'B': {}}, display_info=False,
+                             topology={'A': {'c0': {'acc': {'shared': ('..', '..', 'shared'), 'own': ('own',)}}},
+                                       'mover': {'A': ('A',), 'B': ('B',)}})
+                eng.update(c['total'])
+                v = eng.state.get_value()
+                state = {'shared': v.get('shared'), 'A': sorted(v.get('A', {})), 'B': sorted(v.get('B', {})),
+                         'own': (v.get('B', {}).get('c0') or {}).get('own')}
+                eng.end()
+            left = grace()
+        except Exception as e:
+            err = '%s: %s' % (type(e).__name__, str(e)[:150])
+            left = grace()
+        finally:
+            gc.enable()
+        for ch in multiprocessing.active_children():
+            ch.terminate()
+        out[mode] = {'err': err, 'state': state, 'left': left}
+    return out
+
+
 def run_impl(c):
+    if c['kind'] == 'pmove':
+        return run_pmove(c)
     if c['kind'] == 'grow':
         return run_grow(c)
     if c['kind'] == 'proto':
@@ -339,6 +400,16 @@ def oracle(c, ob, rng):
                 msgs.append(('marking processes parallel changes the published composite', 'parallel-not-transparent'))
         if p['left']:
             msgs.append(('%d worker process(es) still alive after Engine.end()/%s' % (p['left'], c['end']), 'worker-leaked'))
+    elif c['kind'] == 'pmove':
+        s, p = ob['serial'], ob['parallel']
+        if p['err'] or s['err']:
+            msgs.append(('a compartment with a %s process is moved: the run raised %s' % (
+                'parallel' if p['err'] else 'serial', p['err'] or s['err']), 'parallel-raised' if p['err'] else 'serial-raised'))
+        elif s['state'] != p['state']:
+            msgs.append(('moving a compartment whose process is parallel changes the final state: %r / %r'
+                         % (s['state'], p['state']), 'parallel-not-transparent'))
+        if p['left']:
+            msgs.append(('%d worker process(es) alive after a move and Engine.end()' % p['left'], 'worker-leaked'))
     elif c['kind'] == 'grow':
         s, p = ob['serial'], ob['parallel']
         if p['err'] or s['err']:
@@ -369,7 +440,7 @@ def oracle(c, ob, rng):
 def render(c, ob):
     if c['kind'] != 'proto':
         return '(QTrace [] [] true)'
-    cmds = clist([{'send': 'CSend', 'get': 'CGet', 'end': 'CEnd'}[x] for x in c['cmds']])
+    cmds = clist([{'send': 'CSend', 'get': 'CGet', 'end': 'CEnd', 'query': 'CQuery'}[x] for x in c['cmds']])
     return '(QTrace %s %s %s)' % (cmds, clist([cbool(b) for b in ob['oks']]), cbool(ob['alive']))
 
 
